@@ -179,6 +179,47 @@ class Gen:
             ev = self.make_valid(P, r0, s0)
             if ev is not None:
                 self.verify(P, ev, r0, s0, "verify:valid:t=n-j:j%%8=%d" % (j % 8), expect="OK")
+        # limb patterns of the 4x64-bit integers (carry chains of sm2_z256_add / limb order of sm2_z256_cmp):
+        # valid signatures whose r or s has all-ones limbs with a carry running into them when t = r + s
+        F64 = 2 ** 64 - 1
+        limbs = lambda l0, l1, l2, l3: l0 | (l1 << 64) | (l2 << 128) | (l3 << 192)
+        pats = [("r-limb1-ones:carry-in", limbs(F64, F64, 5, 7), limbs(1, 0, 0, 3)),
+                ("r-limb2-ones:carry-in", limbs(F64 - 1, F64, F64, 7), limbs(2, 0, 0, 3)),
+                ("r-limbs012-ones", limbs(F64, F64, F64, 0x1234), limbs(1, 0, 0, 0)),
+                ("s-limb1-ones:carry-in", limbs(9, 0, 0, 3), limbs(F64 - 3, F64, 1, 2)),
+                ("both-limb1-ones", limbs(F64, F64, 1, 1), limbs(F64, F64, 1, 1)),
+                ("sum-wraps-2^256", limbs(5, F64, F64, 0xF000000000000000), limbs(F64, 1, 0, 0x0FFFFFFE00000000)),
+                ("r-top-limbs-of-n", limbs(7, 0x7203DF6B21C6052A, F64, 0xFFFFFFFEFFFFFFFF), limbs(3, 1, 0, 0)),
+                ("s-limb0-above-n0:limb1-below", limbs(11, 2, 3, 4), limbs(F64, 0x7203DF6B21C6052A, F64, 0xFFFFFFFEFFFFFFFF))]
+        for cls, r0, s0 in pats:
+            r0 %= N; s0 %= N
+            if r0 == 0 or s0 == 0: continue
+            ev = self.make_valid(P, r0, s0)
+            if ev is not None:
+                self.verify(P, ev, r0, s0, "verify:valid:limbs:%s" % cls, expect="OK")
+        # forged values >= n that differ from n only in the low limbs (a cmp that ranks limb 0 above
+        # limb 1 takes them for < n); the digest is solved for the value reduced mod n
+        n0, n1 = N & F64, (N >> 64) & F64
+        top = (N >> 128) << 128
+        forged = [("s=n+(2^64-n0)+5", top | ((n1 + 1) << 64) | 5), ("s=n:limb1+1:limb0=0", top | ((n1 + 1) << 64)),
+                  ("s=n:limb1+7:limb0=n0-1", top | ((n1 + 7) << 64) | (n0 - 1)), ("s=n+1", N + 1), ("s=n+2^64", N + 2 ** 64)]
+        for cls, sv in forged:
+            r0 = 1 + self.rnd(N - 1)
+            ev = self.make_valid(P, r0, sv % N)
+            if ev is not None and sv < M256:
+                self.verify(P, ev, r0, sv, "verify:forged:limb-order:%s" % cls, expect="ERR")
+                self.verify(P, ev, r0, sv % N, "verify:valid:limb-order-base:%s" % cls, expect="OK")
+        for cls, sv in (("s<2^64", 2 ** 63 + 12345), ("s<2^127:limb0-high", (3 << 64) | (F64 - 5)), ("s<2^127:limb0-low", (3 << 64) | 5),
+                        ("s<2^128", (2 ** 127) | (F64 - 1)), ("s<2^191", (1 << 190) | (F64 << 64) | 9)):
+            r0 = 1 + self.rnd(N - 1)
+            ev = self.make_valid(P, r0, sv)
+            if ev is not None:
+                self.verify(P, ev, r0, sv + N, "verify:forged:s+n:%s" % cls, expect="ERR")
+        for cls, rv in (("r<2^127:limb0-high", (5 << 64) | (F64 - 2)), ("r<2^64", 2 ** 62 + 99)):
+            s0 = 1 + self.rnd(N - 1)
+            ev = self.make_valid(P, rv, s0)
+            if ev is not None:
+                self.verify(P, ev, rv + N, s0, "verify:forged:r+n:%s" % cls, expect="ERR")
         # DESIGN 5 #1: s = n-70 goes through sm2_z256_point_mul_generator
         r, s = 1 + self.rnd(N - 1), N - 70
         ev = self.make_valid(P, r, s)
@@ -354,6 +395,29 @@ class Gen:
             L = r.range(2, 60); buf = bytes([0x32 + r.below(9)]) + r.bytes(L - 1)
             self.z(P, buf, r.range(1, L - 1), "z:idlen-shorter-than-buffer")
 
+    # ---------------------------------------------------------------- sm2_key.c objects, print parser
+    def gen_keys(self):
+        r = self.r
+        F64 = 2 ** 64 - 1
+        for cls, ks in (("first-draw", [1 + self.rnd(N - 2)]), ("d=1", [1]), ("d=n-2", [N - 2]), ("reject:n-1", [N - 1, 5]), ("reject:n", [N, M256 - 1, 7]),
+                        ("reject:0", [0, 0, 9]), ("100-rejects", [N - 1] * 100 + [3]), ("99-rejects", [N - 1] * 99 + [3]), ("entropy:none", []), ("entropy:exhausted", [0, N])):
+            en = ent_hex(ks)
+            self.add(line="keygen %s" % en, expr="c01_keygen %s" % q(en), cell="keygen:%s" % cls)
+        for cls, d in (("0", 0), ("1", 1), ("2", 2), ("n-2", N - 2), ("n-1", N - 1), ("n", N), ("n+1", N + 1), ("2^256-1", M256 - 1), ("rand", 1 + self.rnd(N - 2)),
+                       ("limb0-only", F64), ("limb-order:n:limb1+1:limb0=0", ((N >> 128) << 128) | ((((N >> 64) & F64) + 1) << 64))):
+            self.add(line="setpriv %s" % h(d), expr="c01_setpriv %s" % q(h(d)), cell="setpriv:d=%s" % cls)
+            self.add(line="fastkey %s" % h(d), expr="c01_fastkey %s" % q(h(d)), cell="fastkey:d=%s" % cls) if d != 0 or True else None
+        P = self.pub[self.keys[3][1]]; Q = self.pub[self.keys[4][1]]
+        for cls, A in (("rand", P), ("G", E.G), ("d=n-2", self.pub[N - 2])):
+            self.add(line="pkdigest %s" % E.pt_hex(A), expr="c01_pkdigest %s" % q(E.pt_hex(A)), cell="pkdigest:%s" % cls)
+        for cls, A, Bp in (("same", P, P), ("other", P, Q), ("negated", P, (P[0], P_ - P[1])), ("same-x-only", P, (P[0], P_ - P[1]))):
+            self.add(line="pkequ %s %s" % (E.pt_hex(A), E.pt_hex(Bp)), expr="c01_pkequ %s %s" % (q(E.pt_hex(A)), q(E.pt_hex(Bp))), cell="pkequ:%s" % cls)
+        good = E.der_sig(N - 9, 2 ** 254 + 5)
+        for cls, a in (("valid", good), ("valid-min", E.der_sig(0, 0)), ("trailing", good + b"\0"), ("truncated", good[:-1]), ("empty", b""),
+                       ("leading-00", b"\x30\x08\x02\x02\x00\x01\x02\x02\x00\x7f"), ("three-ints", b"\x30\x09\x02\x01\x01\x02\x01\x02\x02\x01\x03"),
+                       ("33-octets", b"\x30\x26\x02\x21\x01" + bytes(32) + b"\x02\x01\x01"), ("random", r.bytes(40))):
+            self.add(line="sigprint %s" % core.hexs(a), expr="c01_sigprint %s" % q(core.hexs(a)), cell="sigprint:%s" % cls)
+
     # ---------------------------------------------------------------- sm2_fast_sign
     def gen_fastsign(self):
         """public sm2_fast_sign with chosen pre-computed entries (k, x1).  DESIGN 5 #3 (repaired by
@@ -499,8 +563,18 @@ def phase2(g, first, impl):
                     g.vstream(P, c["idbuf"], c["idlen"], [msg], sgb + b"\0", "vstream:tamper:trailing-byte", expect="ERR")
                     g.vstream(P, c["idbuf"], c["idlen"], [msg], b"", "vstream:empty-signature", expect="ERR")
                     g.vstream(P, c["idbuf"], 0, [msg], sgb, "vstream:idlen=0", expect="ERR")
-            if kind == "sstream" and len(sigs) >= 2 and len(set(sigs)) != len(sigs) and "same-message" not in base:
-                pass
+            if kind == "sstream" and 2 <= len(sigs) <= 3 and c["idbuf"] is not None:
+                # one SM2_VERIFY_CTX for all messages of the signing context (reset in between),
+                # with a wrong signature in the middle: OK, ERR, OK ...
+                rounds, gr = [], []
+                for i, (sg, chunks) in enumerate(zip(sigs, c["rounds"])):
+                    rounds.append((chunks, bytes.fromhex(sg)))
+                    if i == 0: rounds.append((chunks + [b"x"], bytes.fromhex(sg)))
+                rl = ";".join("%s@%s" % (chunks_line(ch_), core.hexs(sg_)) for ch_, sg_ in rounds)
+                gl = glist(["(%s, %s)" % (chunks_g(ch_), q(core.hexs(sg_))) for ch_, sg_ in rounds])
+                g.add(line="vctxr %s %s %d %s" % (E.pt_hex(P), core.hexs(c["idbuf"]), c["idlen"], rl),
+                      expr="c01_vctxr %s %s %s" % (q(E.pt_hex(P)), gid(c["idbuf"], c["idlen"]), gl),
+                      cell="vctxr:of-%s" % base, expect=",".join(["OK", "ERR"] + ["OK"] * (len(sigs) - 1)))
         elif kind == "sign1":
             sgb = bytes.fromhex(w[0])
             g.vstream(g.pub[c["d"]], c["idbuf"], c["idlen"], r.split(c["msg"], 2), sgb, "vstream:of-%s" % base, expect="OK")
@@ -535,7 +609,7 @@ def run(ctx):
             core.harness_build_failed(ctx, log)
             continue
         g = Gen(ctx)
-        g.gen_sign(); g.gen_verify(); g.gen_verifyder(); g.gen_z(); g.gen_fastsign(); g.gen_stream()
+        g.gen_sign(); g.gen_verify(); g.gen_verifyder(); g.gen_z(); g.gen_fastsign(); g.gen_stream(); g.gen_keys()
         first = [c for c in g.cases if c]
         if v != "asan":
             for c in first: c["expr"] = None; c["spec"] = None   # model already compared; impl variants must give the same lines
